@@ -433,6 +433,10 @@ def build(case, v):
                     float(getattr(th, fn + name)(T))
             float(getattr(th, "dp" + name)(0.5 * lo))
             float(getattr(th, "ddp" + name)(2.0 * hi))
+            # every function also outside the first tables (what alpha_n / the hydrodynamics ask of a phase beyond its range)
+            for T in (0.7 * lo, 1.02 * hi, 1.6 * hi):
+                for fn in ("p", "dp", "ddp", "e", "w", "csq"):
+                    float(getattr(th, fn + name)(T))
     except (OverflowError, ZeroDivisionError, FloatingPointError, ValueError):
         pass   # only possible after a C11 hop; judged on the final object below
     for fe in (th.freeEnergyHigh, th.freeEnergyLow):
@@ -672,6 +676,32 @@ def check_case(case) -> Verdict:
 
     for sub in ("eos-e", "eos-w", "eos-csq", "deriv-dp", "deriv-ddp"):
         v.checked(sub)
+    # ---- the same temperature typed as an integer (Python int, numpy integer, 0-d integer array) gives the same
+    #      thermodynamics as the float, inside and outside the tables
+    v.checked("input-type")
+    for name, ph in phases.items():
+        if name in bad:
+            continue
+        cand = [ph.TMin / 2.0, ph.TMin * 0.9, 0.5 * (ph.TMin + ph.TMax), ph.TMax * 1.1, ph.TMax * 2.0]
+        for Tc_ in cand:
+            Ti = int(round(Tc_))
+            if Ti < 2 or abs(Ti - Tc_) > 0.2 * Tc_:
+                continue          # units in which temperatures are of order one: no integer near the wanted point
+            region = "below" if Ti < ph.TMin else "above" if Ti > ph.TMax else "inside"
+            for fnm in ("p", "dp", "ddp", "e", "w", "csq"):
+                f = getattr(ph, fnm)
+                ref = float(f(float(Ti)))
+                for tn_, Tv in (("int", Ti), ("np.int64", np.int64(Ti)), ("0-d int", np.array(Ti))):
+                    try:
+                        got = float(np.asarray(f(Tv), dtype=float).ravel()[0])
+                    except (TypeError, ValueError) as exc:
+                        v.label(f"input-type:{fnm}:{tn_}:refused:{type(exc).__name__}")
+                        continue
+                    if math.isfinite(ref) and not abs(got - ref) <= 1e-12 * abs(ref):
+                        fail("input-type", f"{cls0} phase={name} region={region} {fnm}",
+                             f"{fnm}{'HighT' if name == 'high' else 'LowT'}({Ti}) typed as {tn_} = {got!r}, typed as float = {ref!r} "
+                             f"(table [{ph.TMin:.6g}, {ph.TMax:.6g}])", T=float(Ti))
+            v.label(f"input-type:{region}")
     # ---- (i), (ii), (iv) at every temperature ---------------------------------
     ideal = {}
     for name, kind, T in _temps_for(case, phases):
